@@ -343,7 +343,7 @@ class Gen:
 
     SCENARIOS = ["diamond", "captured", "chain", "sites", "zipmap", "nestedzip", "sharedlit", "matrix",
                  "ntupleidx", "objkeys", "zipsizes", "arraynewmix", "samelit", "failedcompile", "triangle", "kwcall", "closureloop", "litfold", "paramzip", "objorder",
-                 "mapinner", "badret", "nestedparam", "twoarrparams", "matrices", "nestedacc", "zerolit", "outparties", "arrayofop", "litparams", "literalout"]
+                 "mapinner", "badret", "nestedparam", "twoarrparams", "matrices", "nestedacc", "zerolit", "outparties", "arrayofop", "litparams", "literalout", "dupinputs"]
 
     def scenario(self, k=None):
         rng = self.rng
@@ -677,6 +677,47 @@ class Gen:
                 self.m.compile([[r, f"out{i}", rng.choice(self.parties)] for i, r in enumerate(outs) if self.m.regs[r] is not DEAD])
                 return None
             self.compile_now(prefer=outs[:4])
+            return None
+        if k == "dupinputs":
+            # two different inputs under one name, in every position: same party / another party, the duplicate being that
+            # party's first or a later input, met in the main body, in one output or in two, or only inside a function body
+            self.do({"op": "party", "name": "Owner"})
+            p1 = self.last()
+            self.do({"op": "party", "name": "Other"})
+            p2 = self.last()
+            shape = rng.choice(["same-party", "other-party-first", "other-party-later", "in-function", "two-outputs"])
+            self.do({"op": "inputObj", "name": "shared_name", "doc": "", "party": p1})
+            self.do({"op": "wrap", "t": "SecretInteger", "r": self.last()})
+            a = self.last()
+            if shape == "other-party-later":
+                self.do({"op": "inputObj", "name": "other_first", "doc": "", "party": p2})
+                self.do({"op": "wrap", "t": "SecretInteger", "r": self.last()})
+                a2 = self.last()
+                self.do({"op": "bin", "bop": "add", "a": a, "b": a2})
+                a = self.last()
+            self.do({"op": "inputObj", "name": "shared_name", "doc": "", "party": p1 if shape == "same-party" else p2})
+            self.do({"op": "wrap", "t": "SecretInteger", "r": self.last()})
+            b = self.last()
+            if shape == "in-function":
+                def body(ps, b=b):
+                    self.do({"op": "bin", "bop": "mul", "a": ps[0], "b": b})
+                    return self.last()
+                self.define_fn(anns=["SecretInteger"], ret="SecretInteger", plan=body)
+                f = self.last() if describe(self.m.regs[self.last()])[0] == "fn" else None
+                if f is None:
+                    return None
+                self.do({"op": "call", "f": f, "args": [a]})
+                outs = [[self.last(), "out0", p1]]
+            elif shape == "two-outputs":
+                outs = [[a, "out0", p1], [b, "out1", p2]]
+            else:
+                self.do({"op": "bin", "bop": "add", "a": a, "b": b})
+                outs = [[self.last(), "out0", p1]]
+            self.dist["compile"] = self.dist.get("compile", 0) + 1
+            self.m.compile(outs)
+            # ... and a legal program afterwards
+            y = self.new_input("SecretInteger", party=p2)
+            self.m.compile([[y, "out0", p1]])
             return None
         if k == "litparams":
             # a function with several literal-typed parameters of one type next to a non-literal one, each used at its own
